@@ -1101,13 +1101,16 @@ impl QueryRouter {
                 }
 
                 Expr::Value(Value::Placeholder(placeholder)) => {
-                    match placeholder.replace('$', "").parse::<i16>() {
-                        Ok(placeholder) => result.push(ShardingKey::Placeholder(placeholder)),
-                        Err(_) => {
-                            debug!(
-                                "Prepared statement didn't have integer placeholders: {}",
-                                placeholder
-                            );
+                    // Like a literal: only a parameter compared with the sharding key is a key.
+                    if found {
+                        match placeholder.replace('$', "").parse::<i16>() {
+                            Ok(placeholder) => result.push(ShardingKey::Placeholder(placeholder)),
+                            Err(_) => {
+                                debug!(
+                                    "Prepared statement didn't have integer placeholders: {}",
+                                    placeholder
+                                );
+                            }
                         }
                     }
                 }
